@@ -771,6 +771,12 @@ func (g *FnGen) loopHeader(li *loopInfo, entryPhi map[*ssa.Phi]Val) {
 	}
 	li.modAll = all
 	// 3. havoc
+	pre := map[string]string{}
+	for _, f := range mod {
+		if !all && f != "$alloc" {
+			pre[f] = g.heapGet(g.cur, f, g.famSort[f])
+		}
+	}
 	if all {
 		e := g.newEpoch()
 		old := g.heapGet(g.cur, "$alloc", "Int")
@@ -800,6 +806,9 @@ func (g *FnGen) loopHeader(li *loopInfo, entryPhi map[*ssa.Phi]Val) {
 			g.assume(fmt.Sprintf("(forall ((lf!r Int)) (! (=> (and (< lf!r %s) (not %s)) (= (select %s lf!r) (select %s lf!r))) :pattern ((select %s lf!r))))",
 				a0, fr, n, old, n))
 		}
+	}
+	if !all {
+		g.privateCopiesKept(li, pre)
 	}
 	phiVals := map[*ssa.Phi]Val{}
 	for _, ins := range li.header.Instrs {
@@ -1230,4 +1239,67 @@ func (g *FnGen) runDefers(i *ssa.RunDefers) {
 		}
 		g.cur = m
 	}
+}
+
+// privateCopiesKept: a []byte(s) / []rune(s) conversion made before the loop whose result is only ever
+// indexed for reading and measured (the `for _, c := range []byte(s)` idiom) is a private copy: no store
+// can reach it, so its elements are the same at the loop head as before the loop.
+func (g *FnGen) privateCopiesKept(li *loopInfo, pre map[string]string) {
+	for _, b := range g.fn.Blocks {
+		if b == li.header || !b.Dominates(li.header) {
+			continue
+		}
+		for _, ins := range b.Instrs {
+			cv, ok := ins.(*ssa.Convert)
+			if !ok {
+				continue
+			}
+			sl, isSl := typeUnder(cv.Type()).(*types.Slice)
+			if !isSl || !readOnlyUses(cv) {
+				continue
+			}
+			f, _ := g.elemFam(sl.Elem())
+			old, ok := pre[f]
+			if !ok {
+				continue
+			}
+			v, ok := g.vals[cv]
+			if !ok {
+				continue
+			}
+			g.assume(fmt.Sprintf("(= (select %s (s-ref %s)) (select %s (s-ref %s)))", g.cur.h[f], v.T, old, v.T))
+		}
+	}
+}
+
+func readOnlyUses(v ssa.Value) bool {
+	refs := v.Referrers()
+	if refs == nil {
+		return false
+	}
+	for _, r := range *refs {
+		switch u := r.(type) {
+		case *ssa.DebugRef:
+		case *ssa.IndexAddr:
+			ur := u.Referrers()
+			if ur == nil {
+				return false
+			}
+			for _, x := range *ur {
+				if l, ok := x.(*ssa.UnOp); !ok || l.Op != token.MUL {
+					if _, dbg := x.(*ssa.DebugRef); !dbg {
+						return false
+					}
+				}
+			}
+		case *ssa.Call:
+			bi, ok := u.Call.Value.(*ssa.Builtin)
+			if !ok || (bi.Name() != "len" && bi.Name() != "cap") {
+				return false
+			}
+		default:
+			return false
+		}
+	}
+	return true
 }
